@@ -539,7 +539,7 @@ func C11(e *core.Env) {
 
 func C04(e *core.Env) {
 	res := e.Res
-	res.Rule = "cases = (unreadable data text, entry point): empty text, every 5th (quick) / every (thorough) proper prefix of two valid documents cut inside the first JSON value, UTF-16/UTF-32/BOM/Latin-1 encodings, YAML/RAML/XML/Rego texts, JSON that JSON-LD rejects (non-string @id, bad @context, bad @type, @value+@id, bad @base, invalid @language, contexts and documents named by a URL that cannot be loaded, conflicting @index values found only while the node objects are merged, @graph: null / a scalar @graph / @language or @direction used as a property - rejected by the flattening step with an uncoded error) x Validate / ValidateWithConfiguration / ValidateCompiled / ValidateCompiledWithConfiguration (also with the debug flag set) and the built acv binary (validate, normalize); expected: an error (non-zero exit, nothing on stdout), never a report; histories (a readable document first, then the unreadable one three times); paired calls: the unreadable text and a readable document validated at once, both held at the same event (data parsing start / done, normalisation start, evaluation start) through the event channel and released in both orders; " +
+	res.Rule = "cases = (unreadable data text, entry point): empty text, every 5th (quick) / every (thorough) proper prefix of two valid documents cut inside the first JSON value, UTF-16/UTF-32/BOM/Latin-1 encodings, YAML/RAML/XML/Rego texts, JSON that JSON-LD rejects (non-string @id, bad @context, bad @type, @value+@id, bad @base, invalid @language, contexts and documents named by a URL that cannot be loaded, conflicting @index values found only while the node objects are merged, @graph: null / a scalar @graph / @language or @direction used as a property - rejected by the flattening step with an uncoded error) x Validate / ValidateWithConfiguration / ValidateCompiled / ValidateCompiledWithConfiguration (also with the debug flag set) and the built acv binary (validate, normalize); expected: an error (non-zero exit, nothing on stdout), never a report; histories (a readable document first, then the unreadable one three times); paired calls: the unreadable text and a readable document validated at once, both held at the same event (data parsing start / done, normalisation start, evaluation start) through the event channel - started one after the other in either order, released one after the other in either order; " +
 		"non-trivial = the text is not empty; distinct by (text, entry)"
 	texts := map[string]string{"empty": "", "space": "   \n", "open-brace": "{", "open-bracket": "[", "raml": PoolDataGarbage, "yaml": "a: 1\nb: [2\n",
 		"xml": "<?xml version=\"1.0\"?><a/>", "rego": "package x\np { true }\n", "single-quote": "{'@id': 'x'}", "trailing-comma": `{"@id": "http://x/a",}`,
@@ -690,11 +690,12 @@ func C04(e *core.Env) {
 				}
 			}
 			for _, stage := range []events.EventType{events.InputDataParsingStart, events.InputDataParsingDone, events.InputDataNormalizationStart, events.OpaValidationStart} {
-				for _, order := range [][]int{{0, 1}, {1, 0}} {
-					outs := parkedThenSerial(stage, 2*time.Second, order, []func(ch *chan events.Event) (string, error){call(d), call(PoolDataGood)})
+				for _, so := range [][2][]int{{{0, 1}, {0, 1}}, {{0, 1}, {1, 0}}, {{1, 0}, {0, 1}}, {{1, 0}, {1, 0}}} {
+					order := fmt.Sprintf("started in the order %v, released in the order %v", so[0], so[1])
+					outs := startedThenSerial(stage, 2*time.Second, so[0], so[1], []func(ch *chan events.Event) (string, error){call(d), call(PoolDataGood)})
 					if !strings.HasPrefix(outs[0], "error: ") {
-						res.Violate("impl-violates-property", fmt.Sprintf("unreadable data (%s) yields a report from %s while another call validates a readable document (both held at %s, released in the order %v)", n, en, eventName(stage), order),
-							map[string]any{"data": d, "data_kind": n, "entry_point": en, "other_call_data": PoolDataGood, "schedule": fmt.Sprintf("both calls held at their %s event through the event channel; released one after the other in the order %v (0 = the unreadable text)", eventName(stage), order), "returned": core.Trunc(outs[0], 1500), "other_call_returned": core.Trunc(outs[1], 300)})
+						res.Violate("impl-violates-property", fmt.Sprintf("unreadable data (%s) yields a report from %s while another call validates a readable document (both held at %s; %s)", n, en, eventName(stage), order),
+							map[string]any{"data": d, "data_kind": n, "entry_point": en, "other_call_data": PoolDataGood, "schedule": fmt.Sprintf("both calls held at their %s event through the event channel; %s (0 = the unreadable text, 1 = the readable one); each call is started when the one before is held, each is released when the one before has returned", eventName(stage), order), "returned": core.Trunc(outs[0], 1500), "other_call_returned": core.Trunc(outs[1], 300)})
 					}
 					res.Case(fmt.Sprintf("paired|%s|%s|%s|%v", n, en, eventName(stage), order), d != "")
 					res.Count("kind=paired-with-a-readable-call")
